@@ -607,6 +607,7 @@ func propC20(c *Ctx) {
 	for i := 0; i < c.n(1500, 80000); i++ {
 		c.c20Encode(s2, g, g.msg(), i)
 	}
+	c.c20ManyCalls(g)
 }
 
 func (c *Ctx) c20Scribble(s *SuiteStat, in []byte, idx int, k *saKeys, recvRole bool) {
